@@ -106,6 +106,8 @@ def verify_function(key, tier='quick', keep_terms=False, discharge=True):
             st.old_heap = dict(st.heap)
             st.old_locals = dict(env)
             entry_env[0] = dict(env)
+            st.entry_info = dict(params=[(p, env[p]) for p in c.params if p in env], fn=fn, contract=c)
+            st.outcome_info = None
             st.mod_targets = calls.eval_modifies(st, c, env)
             st.frames = [(st.mod_targets, st.fn_alloc0)]
             st.locals = dict(env)
@@ -129,6 +131,7 @@ def verify_function(key, tier='quick', keep_terms=False, discharge=True):
                 raise Undecided('break/continue outside loop')
             if outcome[0] == 'normal':
                 rv = outcome[1]
+                st.outcome_info = ('return', rv)
                 envr = dict(env)
                 try:
                     if c.returns.kind == 'none' and rv.t.kind != 'none':
@@ -156,6 +159,7 @@ def verify_function(key, tier='quick', keep_terms=False, discharge=True):
                 ex.exits['normal'] += 1
             else:
                 pr = outcome[1]
+                st.outcome_info = ('raise', pr.cls)
                 clauses = None
                 for k, cl in c.raises.items():
                     if R.is_subclass(pr.cls, k):
@@ -231,6 +235,13 @@ def obligation_record(ob):
              time=round(ob.time, 4), kind=ob.kind, path=list(ob.path))
     if ob.status == 'refuted' and ob.model is not None:
         d['model'] = model_text(ob.model)
+        try:
+            from . import refute
+            spec = refute.replay_spec(ob)
+            if spec is not None:
+                d['replay'] = spec
+        except Exception as e:      # decoding is best effort: never a verdict
+            d['replay_error'] = str(e)[:200]
     if ob.status in ('refuted', 'unknown'):
         d['smt2_tail'] = smt.smt2_head(ob, 3000)
         d['detail'] = ob.detail
